@@ -56,8 +56,67 @@ Theorem c18_roundtrip_lazy_buffer_refuted :
 Proof. exact lazy_buffer_refuted. Qed.
 Print Assumptions c18_roundtrip_lazy_buffer_refuted.
 
+(* ---- at ANY point of ANY history (composition with the C03 cache machine) ----
+   A persisted object is an attribute table together with the C03 machine state; the table evolves
+   with the operations of the history (optimiser steps and load_state_dict put ARBITRARY new values
+   [nv] into parameters / params+buffers, set_train_data into the data attributes).  For a family
+   without lazily registered buffers, whose freshly constructed object has unique attribute names and
+   no caches: after every admissible history, saving the state_dict and loading it (strictly) into an
+   object freshly constructed from the current constructor arguments, pickling, and deep-copying all
+   yield an object with the same value of EVERY attribute set [rel] and the same eval-mode prediction
+   under every keyed configuration. *)
+Theorem c18_persist_any_history :
+  forall tf nv h rel c,
+    wf_tfam tf = true -> t_lazy tf = [] -> wf_family (t_c03 tf) = true ->
+    admissible all_on (t_c03 tf) init h = true -> keyed_history (t_c03 tf) h = true ->
+    c < f_ncfg (t_c03 tf) -> cfg_keyed (t_c03 tf) c = true ->
+    let p := prun tf nv (pinit tf) h in
+    training (p_st p) = false ->
+    pobserve tf rel (restore_sd tf p) c = pobserve tf rel p c /\
+    pobserve tf rel (restore_pickle p) c = pobserve tf rel p c /\
+    pobserve tf rel (restore_deepcopy tf p) c = pobserve tf rel p c.
+Proof. exact persist_any_history. Qed.
+Print Assumptions c18_persist_any_history.
+
+(* the attribute-table half also holds in training mode and for unkeyed histories, and strict
+   loading succeeds at every save point *)
+Theorem c18_table_roundtrip_any_history :
+  forall tf nv h rel, wf_tfam tf = true -> t_lazy tf = [] ->
+    let p := prun tf nv (pinit tf) h in
+    predict rel (load (construct tf (p_tbl p)) (state_dict (p_tbl p))) = predict rel (p_tbl p) /\
+    load_strict (construct tf (p_tbl p)) (state_dict (p_tbl p)) =
+      Some (load (construct tf (p_tbl p)) (state_dict (p_tbl p))).
+Proof. exact table_roundtrip_any_history. Qed.
+Print Assumptions c18_table_roundtrip_any_history.
+
+(* with a lazily registered buffer (RFFKernel.randn_weights) the statement is REFUTED by the
+   faithful model: a state_dict saved before the first call loads, one saved after any call is
+   rejected by strict loading and loses the buffer under non-strict loading (finding
+   C18-rff-lazy-randn-weights, reproduced on the real code by the driver) *)
+Theorem c18_persist_any_history_lazy_refuted :
+  wf_tfam tf_rff = true /\
+  (forall nv, load_strict (construct tf_rff (p_tbl (prun tf_rff nv (pinit tf_rff) [])))
+                          (state_dict (p_tbl (prun tf_rff nv (pinit tf_rff) []))) <> None) /\
+  (forall nv, let p := prun tf_rff nv (pinit tf_rff) [OPredict 0] in
+     admissible all_on fam_exact init [OPredict 0] = true /\ training (p_st p) = false /\
+     load_strict (construct tf_rff (p_tbl p)) (state_dict (p_tbl p)) = None /\
+     predict [7] (load (construct tf_rff (p_tbl p)) (state_dict (p_tbl p))) <> predict [7] (p_tbl p)).
+Proof. exact lazy_history_refuted. Qed.
+Print Assumptions c18_persist_any_history_lazy_refuted.
+
 Example ex_c18_roundtrip :
   NoDup (map f_attr ex_o) /\ NoDup (map f_attr ex_fresh) /\ forallb (premise ex_o ex_fresh) [0; 1; 2] = true /\
   predict [0; 1; 2] (load ex_fresh (state_dict ex_o)) = [Some 11; Some 12; Some 13] /\
   load_strict ex_fresh (state_dict ex_o) = Some (load ex_fresh (state_dict ex_o)).
 Proof. exact ex_roundtrip. Qed.
+
+(* non-vacuity of the history theorems: a 12-operation admissible history through every kind of
+   operation, ending in eval mode, after which parameters hold version-2 values and the training
+   inputs version-1 values *)
+Example ex_c18_persist_history :
+  wf_tfam tf_exact = true /\ t_lazy tf_exact = [] /\ wf_family (t_c03 tf_exact) = true /\
+  admissible all_on (t_c03 tf_exact) init ex_hist = true /\
+  training (p_st (prun tf_exact (fun v a => 1000 * v + a) (pinit tf_exact) ex_hist)) = false /\
+  predict [0; 1; 3] (p_tbl (prun tf_exact (fun v a => 1000 * v + a) (pinit tf_exact) ex_hist)) =
+    [Some 2000; Some 2001; Some 1003].
+Proof. exact ex_persist_history. Qed.
